@@ -31,6 +31,7 @@ fn klit(rng: &mut Rng, k: &str) -> String {
 fn preamble(k: &str, rng: &mut Rng) -> String {
     let mut out = String::new();
     out.push_str(&format!("struct I2\n{{\n    {} p;\n    {} q;\n}};\n", k, k));
+    out.push_str("enum EK\n{\n    EA,\n    EB = 5,\n};\n");
     out.push_str(&format!("static {} gk = {};\nstatic int gcount = 0;\n", k, klit(rng, k)));
     out.push_str("int next(int n)\n{\n    gcount++;\n    return gcount % n;\n}\n");
     out.push_str(&format!("{} bump({} d)\n{{\n    gk = gk + d;\n    return gk;\n}}\n", k, k));
@@ -55,7 +56,7 @@ fn struct_shape(k: &str, rng: &mut Rng) -> (String, usize, &'static str) {
 }
 
 /// an operand of kind `k`; class: 0 = leaf the exporter repeats, 1 = no effect but not a leaf, 2 = with an effect
-pub const OPERANDS: [u64; 3] = [6, 9, 22];
+pub const OPERANDS: [u64; 3] = [7, 9, 22];
 
 fn operand(k: &str, class: u32, rng: &mut Rng) -> (String, &'static str) {
     let n = OPERANDS[class.min(2) as usize];
@@ -71,6 +72,7 @@ fn operand_at(k: &str, class: u32, which: u64, rng: &mut Rng) -> (String, &'stat
             2 => ("lc".into(), "leaf:local"),
             3 => ("0".into(), "leaf:zero"),
             4 => (klit(rng, k), "leaf:literal"),
+            5 => ("EB".into(), "leaf:enum-value"),
             _ => ("ck".into(), "leaf:constant"),
         },
         1 => match which {
